@@ -268,7 +268,8 @@ fn gen_op(t: &mut Tape, pages: usize, focus: usize) -> Op {
     let near = |t: &mut Tape| (focus + t.idx(6)).min(pages + 1);
     match t.below(10) {
         0 | 1 => Op::SetBit(near(t)),
-        2 | 3 => Op::SetRange(near(t), 1 + t.idx(4)),
+        2 => Op::SetRange(near(t), 1 + t.idx(4)),
+        3 => Op::SetRange(near(t).saturating_sub(t.idx(4)), 1 + t.idx(9)),
         4 => Op::ResetBit(near(t)),
         5 => Op::ResetRange(near(t), 1 + t.idx(3)),
         6 | 7 => Op::Harvest,
@@ -286,7 +287,11 @@ fn gen_program(t: &mut Tape) -> Program {
         let n = 1 + t.idx(4);
         threads.push((0..n).map(|_| gen_op(t, pages, focus)).collect());
     }
-    let premarked = if t.flag() { vec![focus + t.idx(4)] } else { vec![] };
+    // pre-marked pages: near the focus, and anywhere (e.g. the same bit position in another word)
+    let mut premarked = if t.flag() { vec![focus + t.idx(4)] } else { vec![] };
+    for _ in 0..t.idx(3) {
+        premarked.push(t.idx(pages));
+    }
     Program { pages, premarked, threads }
 }
 
@@ -338,6 +343,10 @@ fn scope_programs() -> Vec<Program> {
         v.push(mk(vec![a], vec![vec![Op::ResetRange(a, 1)], vec![Op::SetBit(b)]]));
         v.push(mk(vec![a, c], vec![vec![Op::ResetRange(a, 1)], vec![Op::SetRange(b, 1), Op::Harvest]]));
         v.push(mk(vec![a], vec![vec![Op::ResetRange(a, 2)], vec![Op::SetBit(c)], vec![Op::Harvest]]));
+        // ranges that start unaligned and cross a word boundary while the same bit positions of
+        // the previous word are dirty
+        v.push(mk(vec![0, 1], vec![vec![Op::SetRange(62, 4)], vec![Op::Harvest]]));
+        v.push(mk(vec![base % 64, 64 + base % 64], vec![vec![Op::SetRange(63, 2)], vec![Op::SetRange(126, 4)]]));
         // clones
         v.push(mk(vec![a], vec![vec![Op::Clone], vec![Op::SetBit(b)]]));
         v.push(mk(vec![], vec![vec![Op::Clone, Op::Harvest], vec![Op::SetRange(a, 2)]]));
